@@ -290,10 +290,10 @@ class LogarithmicStretch:
     def __call__(self, values: NDArray, copy: bool = True) -> NDArray:
         values = np.array(values, copy=copy)
         np.clip(values, 0.0, 1.0, out=values)
+        # log1p keeps log(a x + 1) accurate when a x is small (float32 data, small a)
         np.multiply(values, self.a, out=values)
-        np.add(values, 1.0, out=values)
-        np.log(values, out=values)
-        np.true_divide(values, np.log(self.a + 1.0), out=values)
+        np.log1p(values, out=values)
+        np.true_divide(values, np.log1p(self.a), out=values)
         return values
 
     @property
@@ -328,9 +328,9 @@ class InverseLogarithmicStretch:
     def __call__(self, values: NDArray, copy: bool = True) -> NDArray:
         values = np.array(values, copy=copy)
         np.clip(values, 0.0, 1.0, out=values)
-        np.multiply(values, np.log(self.a + 1.0), out=values)
-        np.exp(values, out=values)
-        np.subtract(values, 1.0, out=values)
+        # expm1 keeps exp(t) - 1 accurate when t is small (float32 data, small a)
+        np.multiply(values, np.log1p(self.a), out=values)
+        np.expm1(values, out=values)
         np.true_divide(values, self.a, out=values)
         return values
 
